@@ -87,6 +87,26 @@ impl Handler for H20 {
 const CONNECT_TIMEOUT_MS: u64 = 1200;
 const SLOW_USE_MS: u64 = 3000;
 
+/// Round robin over EVERY node of the cluster state (token owners or not).
+#[derive(Debug)]
+struct EveryKnownNode(std::sync::atomic::AtomicUsize);
+
+impl scylla::policies::load_balancing::LoadBalancingPolicy for EveryKnownNode {
+    fn pick<'a>(&'a self, _rq: &'a scylla::policies::load_balancing::RoutingInfo, cluster: &'a scylla::cluster::ClusterState) -> Option<(scylla::cluster::NodeRef<'a>, Option<scylla::routing::Shard>)> {
+        let nodes = cluster.get_nodes_info();
+        if nodes.is_empty() {
+            return None;
+        }
+        Some((&nodes[self.0.fetch_add(1, Ordering::Relaxed) % nodes.len()], None))
+    }
+    fn fallback<'a>(&'a self, _rq: &'a scylla::policies::load_balancing::RoutingInfo, cluster: &'a scylla::cluster::ClusterState) -> scylla::policies::load_balancing::FallbackPlan<'a> {
+        Box::new(cluster.get_nodes_info().iter().map(|n| (n, None)))
+    }
+    fn name(&self) -> String {
+        "EveryKnownNode".into()
+    }
+}
+
 #[derive(Clone, Debug, PartialEq, Eq)]
 enum Step {
     /// one node acknowledges USE only after the client's timeout, the other at once: the call may fail, but if it
@@ -131,7 +151,14 @@ async fn run_hist(h: &Hist) -> HistOut {
     for n in ["ks1", "ks2", "Ks3", "ks", "ks3", "KS2"] {
         ks.push(KeyspaceDef::simple(n, 2).with_table(TableDef::new("echo", &[("id", "bigint")], &[("payload", "blob")])));
     }
-    let spec = ClusterSpec { nodes: vec![sharded.clone(), NodeSpec::simple("dc1", "r2", vec![500])], keyspaces: ks, cluster_name: "c20".into() };
+    let mut nodes = vec![sharded.clone(), NodeSpec::simple("dc1", "r2", vec![500])];
+    // every third history: a third node that owns NO token (a coordinator-only node); the default policy
+    // never picks it, so these histories route through a policy that walks over every known node
+    let zero_token = h.seed % 3 == 1;
+    if zero_token {
+        nodes.push(NodeSpec::simple("dc1", "r3", vec![]));
+    }
+    let spec = ClusterSpec { nodes, keyspaces: ks, cluster_name: "c20".into() };
     let cluster = MockCluster::start(spec, handler.clone()).await;
     let log = cluster.log().clone();
     let mut out = HistOut { log: log.clone(), build_error: None, use_results: vec![], late_executions: vec![] };
@@ -145,6 +172,12 @@ async fn run_hist(h: &Hist) -> HistOut {
     }
     let session = match connect(&cluster, |b| {
         let b = b.pool_size(PoolSize::PerShard(NonZeroUsize::new(per_shard).unwrap())).connection_timeout(Duration::from_millis(CONNECT_TIMEOUT_MS));
+        let b = if zero_token {
+            let p = scylla::client::execution_profile::ExecutionProfile::builder().load_balancing_policy(Arc::new(EveryKnownNode(std::sync::atomic::AtomicUsize::new(0)))).build();
+            b.default_execution_profile_handle(p.into_handle())
+        } else {
+            b
+        };
         if builder_ks { b.use_keyspace("ks2", false) } else { b }
     })
     .await
@@ -346,6 +379,9 @@ fn judge(o: &mut Outcome, h: &Hist, r: &HistOut) {
     }
     if h.seed % 2 == 0 {
         o.class("keyspace-given-to-session-builder");
+    }
+    if h.seed % 3 == 1 && evs.iter().any(|l| matches!(&l.ev, Ev::Recv { node: 2, request, .. } if matches!(&**request, Request::Query { query, .. } if query.starts_with(ECHO_QUERY_PREFIX)))) {
+        o.class("requests-on-a-node-that-owns-no-token");
     }
     for v in r.log.violations() {
         o.node_violation("c20", &v, replay.clone());
@@ -556,7 +592,7 @@ pub fn run(ctx: &Ctx) -> Outcome {
         }
     }
     rt.block_on(validation(&mut out, ctx));
-    for c in ["keyspace-given-to-session-builder", "step:Use", "step:Kill", "step:Restart", "step:AddNode", "step:UseFailing", "step:UseSlow", "step:DownUseUp", "step:UseStatement", "requests-on-connections-opened-after-use", "use:failed-on-some-connection", "name:valid", "name:invalid", "validation-part"] {
+    for c in ["keyspace-given-to-session-builder", "step:Use", "step:Kill", "step:Restart", "step:AddNode", "step:UseFailing", "step:UseSlow", "step:DownUseUp", "step:UseStatement", "requests-on-connections-opened-after-use", "use:failed-on-some-connection", "requests-on-a-node-that-owns-no-token", "name:valid", "name:invalid", "validation-part"] {
         out.require_class(c);
     }
     out
